@@ -82,6 +82,8 @@ structure DState where
   epochK : List (Nat × Nat) := []      -- epoch ↦ content, from the snapbegin lines
   commits : List Nat := []             -- commit events observed for the open writer
   images : Bool := true
+  openKeepN : Bool := false            -- C02/C11 drivers: keepN at open time is judged against what was LOADABLE at `open`
+  loadableAtOpen : List Nat := []
 
 def kOf (d : DState) (e : Nat) : Option Nat := (d.epochK.find? (·.1 == e)).map (·.2)
 
@@ -113,6 +115,7 @@ def b? (s : String) : Option Bool := if s == "1" then some true else if s == "0"
 def parseOp (ws : List String) : Option Act :=
   match ws with
   | ["open"] => some (.ev .openWriter fun _ => none)
+  | ["crash"] => some (.ev .crash fun _ => none)
   | ["intro", e, added, gone, safe, cb] => do
       let e ← e.toNat?; let a ← parseList added; let g ← parseList gone
       let safe ← b? safe; let cb ← b? cb
@@ -245,12 +248,20 @@ def stepLine (d : DState) (op impl : String) : DState × String :=
               ["final", if blocked == "" then "final-handles-balanced" else "final-with-blocked-callers"])
   | "opened" :: cs :: _ =>
       let l := parseListing impl
-      let d := match parseList cs with | some c => { d with commits := c } | none => d
-      if !d.sync then (d, answer impl "na" ["desync"]) else
-      if some d.s.commits != parseList cs then (d, answer s!"REJECT:open-commits model={showList d.s.commits}" "ok" [])
-      else match keepNBad d l with
+      let spec : Option String :=
+        if d.openKeepN && l.ok && parseList cs != some d.loadableAtOpen then
+          some s!"bad:open-commits-not-the-loadable-snapshots loadable={showList d.loadableAtOpen}"
+        else none
+      let d := if d.openKeepN then d else match parseList cs with | some c => { d with commits := c } | none => d
+      let spec := match spec with
+        | some b => some b
+        | none => keepNBad d l
+      if !d.sync then (d, answer impl (spec.getD "na") ["desync"]) else
+      if some d.s.commits != parseList cs then ({ d with sync := false }, answer s!"REJECT:open-commits model={showList d.s.commits}" (spec.getD "ok") [])
+      else match spec with
         | some b => (d, answer (showState d.s) b ["opened"])
-        | none => (d, answer (showState d.s) "ok" ["opened", if d.s.commits.isEmpty then "open-empty" else "open-existing"])
+        | none => (d, answer (showState d.s) "ok" ["opened", if d.s.commits.isEmpty then "open-empty" else "open-existing",
+                      if l.torn.isEmpty then "open-clean" else "open-over-torn-snapshot"])
   | ["openfail"] =>
       if !d.sync then (d, answer impl "na" ["desync"]) else
       (match step d.s .openWriter with
@@ -270,7 +281,10 @@ def stepLine (d : DState) (op impl : String) : DState × String :=
               | some e, some k => { d with epochK := (e, k) :: d.epochK.filter (·.1 != e) }
               | _, _ => d
           | ["commit", e, _] => { d with commits := d.commits ++ (e.toNat?).toList }
-          | ["open"] => { d with commits := [] }
+          | ["open"] =>
+              -- loadSnapshots must commit exactly the loadable snapshots of this listing, oldest first
+              let ld := (l.snaps.map (·.1)).filter l.loadable
+              if d.openKeepN then { d with commits := ld, loadableAtOpen := ld } else { d with commits := [] }
           | _ => d
         let spec : Option String :=
           match ws with
@@ -302,6 +316,6 @@ def stepLine (d : DState) (op impl : String) : DState × String :=
               (d, answer (showState s') (spec.getD "ok") [evName ev])
 
 def driverStep (images : Bool) (d : DState) (op impl : String) : DState × String :=
-  stepLine { d with images := images } op impl
+  stepLine { d with images := images, openKeepN := true } op impl
 
 end Bluge.Persist.Drv
